@@ -724,7 +724,7 @@ def run_oracle(oracle, lines):
     return vlib.run_lines("sh", ["-c", 'ulimit -s unlimited 2>/dev/null || ulimit -s 1000000; exec "$0"', oracle], lines, timeout=3000)
 
 
-def run_batches(binary, args, lines, batch=250, max_crashes=8):
+def run_batches(binary, args, lines, batch=100, max_crashes=6):
     """resilient run in batches; once max_crashes children have died the rest is not executed
     (each death costs a process and possibly gigabytes): '<id> SKIPPED'"""
     out, crashes = [], 0
